@@ -20,7 +20,7 @@ pred tcOK(tc *trafficcontroller.TrafficController) := tc != nil && trafficcontro
 
 func (rctc *RawConfigTrafficController) handleEvent(event *supervisor.ObjectEntityWatcherEvent)
   flag allocates
-  flag frame=unchecked
+  modifies nDelP, nDelG, nNewP, nNewG, nUpdP, nUpdG, gOtherNS, smHas, smVal, smTyp, inits, inherits, inhPrev, closes, gLifeSpec, gLifePrev, allof("supervisor.ObjectEntity.generation"), gName, gSpace, gHad, gPrev, gPublished, gPublishedBuilt, gBase, entries(rctc.tc.namespaces)
   // creating in the (non-empty) default namespace cannot fail: the error branch after the two create calls is dead
   flag dead=ObjectEntity.Spec#3,Spec.Name#1
   requires rctc != nil && tcOK(rctc.tc) && event != nil
